@@ -46,6 +46,8 @@ def units(ctx):
                     yield ("quads", vi, dne, i)
     yield from hist.hist_units()
     yield ("long",)
+    for k in range(2 + 4):
+        yield ("scale", k)
 
 
 def _classes(ctx):
@@ -78,6 +80,36 @@ def gen_cases(unit, ctx):
                 for vals in ([4], [4, 8], [3, 6, 12], None):
                     for dne in (False, True):
                         ns = lib.long_desc(n, ctx["p"] - 2, (ctx["ch"][0], ctx["ch"][1], 9), step, lens=(3, 4, 5, 6, 11, 2))
+                        yield {"values": vals, "dne": dne, "notes": [list(x) for x in ns], "events": [["ts", 0, 3, 4]]}
+        return
+    if unit[0] == "scale":
+        p, (c0, c1) = ctx["p"], ctx["ch"]
+        k = unit[1]
+        if k == 0:
+            # a note and its re-strike (gap one tick longer than the note, closest value longer than the gap) with K
+            # other notes of the same channel struck in between, K = 4 ... 130
+            for K in (4, 12, 31, 32, 33, 40, 70, 130):
+                for (l, g) in ((22, 23), (5, 7), (10, 11)):
+                    # every intervening note has its own pitch (well-formed whatever the onsets)
+                    mid = [[1 + (i % (g - 2)), 1, (p + 1 + i) if K <= 40 else (p - 60 + i), c0, 20 + i % 90] for i in range(K)]
+                    mid = [m for m in mid if 0 <= m[2] <= 127 and m[2] != p]
+                    ns = [[0, l, p, c0, 99]] + mid + [[g, l, p, c0, 98], [g + 200, 3, p, c0, 97]]
+                    for vals in ([24, 12, 6], None, [4, 8]):
+                        for dne in (False, True):
+                            yield {"values": vals, "dne": dne, "notes": ns, "events": []}
+        elif k == 1:
+            # notes thousands of ticks long (far beyond the largest allowed value)
+            for L in lib.GAPS:
+                ns = [[0, L, p, c0, 99], [5, 7, p + 1, c0, 50], [L + 50, L + 1, p, c0, 98], [3, L // 2, p, c1, 97]]
+                for vals in ([24, 12, 6], None, [6, 12, 24, 48, 96], [96]):
+                    for dne in (False, True):
+                        yield {"values": vals, "dne": dne, "notes": ns, "events": [["ks", L, "G"]]}
+        else:
+            n = lib.LADDER[k]
+            for step in (5, 12):
+                for vals in ([4, 8], [3, 6, 12], None):
+                    for dne in (False, True):
+                        ns = lib.long_desc(n, p - 2, (c0, c1, 9), step, lens=(3, 4, 5, 6, 11, 2))
                         yield {"values": vals, "dne": dne, "notes": [list(x) for x in ns], "events": [["ts", 0, 3, 4]]}
         return
     if unit[0] == "hist":
